@@ -330,6 +330,42 @@ def rule_R11_2(ctx):
                                "out-of-range bounds are accepted" % f.path,
                                where=mir.span_loc(bypass[0][1]))
     r.require_floor("out-of-bounds read errors", n, 4)
+    # wherever a range lookup lives (possibly a shared helper): no success
+    # exit of that function bypasses the lookup's hit edge
+    m = 0
+    for f in prog.hand_fns():
+        if f.from_expansion or f.is_closure:
+            continue
+        for c in f.calls():
+            if c.is_ptr or (c.res or "").split("::")[-1] != "get":
+                continue
+            if not any(t.startswith("std::ops::Range") for t in c.argtys[1:]):
+                continue
+            m += 1
+            if c.target is None or f.term(c.target)["k"] != "switch":
+                r.unproven.append("%s: result of the range lookup is not matched directly" % f.path)
+                continue
+            info = f.switch_info(c.target)
+            some_t = dict(info["cases"]).get("Some") if info and info["kind"] == "discr" else None
+            if some_t is None:
+                r.unproven.append("%s: range lookup without a Some edge" % f.path)
+                continue
+            exits = []
+            for b2, i2, pl2, kd2, ao2, sp2 in f.aggregates():
+                if pl2[0] == 0 and not pl2[1] and kd2["variant"] in ("Ok", "Some") \
+                        and kd2["adt"] in ("std::result::Result", "std::option::Option"):
+                    exits.append((b2, sp2))
+            bypass = [(b2, sp2) for b2, sp2 in exits if not f.dominates(some_t, b2)]
+            r.inst("%s: range lookup; %d success exit(s), %d bypass it" % (f.path, len(exits), len(bypass)))
+            if not bypass:
+                r.ok()
+            else:
+                r.fail("%s | success exit bypasses the range lookup" % f.path,
+                       "%s can answer a range read successfully without the "
+                       "bounds lookup `get(start..end)` having succeeded: "
+                       "some out-of-range bounds are accepted" % f.path,
+                       where=mir.span_loc(bypass[0][1]))
+    r.require_floor("range lookups", m, 1)
     return r
 
 
